@@ -174,6 +174,59 @@ def _wrappers(ctx):
     return out
 
 
+def _expiry_cases(trace, pname):
+    """Cases of the closure variable `pname` (none / neg / zero / pos / default marker) consistent with
+    the branch decisions taken on this path; None if no decision mentions it."""
+    cases = {'none', 'neg', 'zero', 'pos', 'default'}
+    seen = False
+    num = {'neg': -1, 'zero': 0, 'pos': 1}
+    for e in trace:
+        if e.kind != 'TEST':
+            continue
+        v = e.d['val']
+        truth = e.d['truth']
+        while v.k == 'not':
+            v = v.a[0]
+            truth = not truth
+        if v.k != 'cmp' or len(v.a[0]) != 1 or len(v.a[1]) != 2:
+            continue
+        a, b = v.a[1]
+
+        def is_var(x):
+            return x.k == 'free' and x.a[0] == pname
+        if not (is_var(a) or is_var(b)):
+            continue
+        seen = True
+        op = v.a[0][0]
+        other = b if is_var(a) else a
+        flip = not is_var(a)
+        ok_cases = set()
+        for c in cases:
+            if other.is_const and other.val is None and op in ('Is', 'IsNot'):
+                r = (c == 'none') if op == 'Is' else (c != 'none')
+            elif other.is_const and isinstance(other.val, (int, float)) and not isinstance(other.val, bool) \
+                    and other.val == 0 and op in ('Lt', 'LtE', 'Gt', 'GtE', 'Eq', 'NotEq'):
+                if c in ('none', 'default'):
+                    # comparing None with 0 raises; the default marker is an object: the path cannot be in this case
+                    # unless the comparison is (in)equality
+                    if op in ('Eq', 'NotEq'):
+                        r = op == 'NotEq'
+                    else:
+                        continue
+                else:
+                    d = num[c] if not flip else -num[c]
+                    r = {'Lt': d < 0, 'LtE': d <= 0, 'Gt': d > 0, 'GtE': d >= 0, 'Eq': d == 0, 'NotEq': d != 0}[op]
+            elif op in ('Eq', 'NotEq', 'Is', 'IsNot') and other.k in ('extfn', 'modconst', 'global', 'const'):
+                # comparison with the DEFAULT_TIMEOUT marker
+                r = (c == 'default') if op in ('Eq', 'Is') else (c != 'default')
+            else:
+                r = truth
+            if r == truth:
+                ok_cases.add(c)
+        cases = ok_cases
+    return cases if seen else None
+
+
 def _is_user_call(e):
     if e.kind == 'UCALL' and e.d['callee'].k == 'free' and e.d['callee'].a[0] == 'func':
         return True
@@ -239,16 +292,13 @@ def m3(ctx):
                 if kind in ('plain', 'django'):
                     # the store happens exactly when expiry is None / default marker / > 0
                     pname = 'expire' if kind == 'plain' else 'timeout'
-                    facts = []
-                    for e in tr:
-                        if e.kind == 'TEST' and any(x.k == 'free' and x.a[0] == pname for x in values_in(e.d['val'])):
-                            facts.append((e.d['src'], e.d['truth']))
-                    allowed = any(t for s_, t in facts)
-                    if bool(sets) != allowed or not facts:
+                    cases = _expiry_cases(tr, pname)
+                    if cases is None:
                         res['store-guard'] = [False, fmt_trace(tr)]
-                    for s_, t in facts:
-                        if '>' in s_ and ('> 0' not in s_ and '0 <' not in s_):
-                            res['store-guard'] = [False, fmt_trace(tr)]
+                    elif sets and not cases <= {'none', 'pos', 'default'}:
+                        res['store-guard'] = [False, fmt_trace(tr)]
+                    elif not sets and not cases <= {'neg', 'zero'}:
+                        res['store-guard'] = [False, fmt_trace(tr)]
                 else:
                     if len(sets) != 1:
                         res['same-key'] = [False, fmt_trace(tr)]
